@@ -3,6 +3,13 @@ per-property parts written by the sub-agents."""
 import glob, json, os
 V = os.path.dirname(os.path.dirname(os.path.abspath(__file__)))
 out = open(os.path.join(V, "design_parts", "00_main.md")).read().rstrip() + "\n\n"
+# section 4: the bounds table is read from the evidence files of the last quick run
+rows = ["| check | quick wall (this machine, shared) | TLC states | cases run against the library | traces validated by TLC | distinct non-trivial |", "|---|---|---|---|---|---|"]
+for f in sorted(glob.glob(os.path.join(V, "evidence", "C*.json"))):
+    e = json.load(open(f)); c = e.get("coverage", {})
+    rows.append("| %s (%s, seed %s) | %s s | %s | %s | %s | %s |" % (e["property_id"], e["tier"], e["seed"], round(e.get("wall_s", 0)), c.get("states", ""),
+                c.get("evaluations", ""), c.get("traces_validated_against_impl", ""), c.get("distinct_nontrivial", "")))
+out = out.replace("<!--BOUNDS-->", "\n".join(rows))
 out += "## 10. Seeded changes: which check catches which\n\n"
 out += ("Ninety-two changes to the library (two rounds for every property, a third for C03 C04 C07 C09 C10 C14) were written by fresh sub-agents that were given only the text of one property and a scratch\n"
         "worktree (nothing from /verif). Each is kept under `/verif/seeded/<id>/` (patch.diff, demo.py, meta.json) and was confirmed\n"
